@@ -56,6 +56,9 @@ def call_arg(t: Term, index: int, name: str) -> Optional[Term]:
 def node_iterator_domain(t: Term) -> str:
     """'ALL' when the iterable is the complete node iterator of a graph (possibly wrapped in list()/tqdm()),
     'REVERSED-ALL' for reversed(...) of it, 'SUBSET' for depth / leaf selections or slices, '?' otherwise."""
+    if t is None:
+        # a `while` loop has no iterable: a walk driven by hand (explicit stack, next() on an iterator) is outside what the loop rules read
+        raise AnalysisError("the node walk is a `while` loop driven by hand (explicit stack / next()); its domain is not read")
     t0 = strip_identity_wrappers(t)
     if t0[0] == "slice" or t0[0] == "sub":
         return "SUBSET"
